@@ -308,3 +308,12 @@ func maxKey(n *mavldb.VerifNode) []byte {
 	}
 	return n.Key
 }
+
+// NewMemDB returns a fresh in-memory database with the batch leniency of goleveldb (see lenientDB).
+func NewMemDB() dbm.DB {
+	db, err := dbm.NewGoMemDB("mvx", "", 16)
+	if err != nil {
+		panic(err)
+	}
+	return lenientDB{db}
+}
